@@ -92,6 +92,12 @@ def _replay(beh, opts, shared, ctor=False):
                         t = T(p=shared_gen if shared else gen)
                     else:
                         t.p = shared_gen if shared else gen
+                elif st["kind"] == "same":
+                    # the current value itself, assigned again
+                    if t is None:
+                        t = T(p=T.param.p.default)
+                    else:
+                        t.p = t.p
                 else:
                     if t is None:
                         t = T(p=3000 + i)
